@@ -114,4 +114,109 @@ TolPQ     == D(0, 5, 7000, 0, 0)         \* 5.7e-4
 TolExact  == D(0, 0, 5000, 0, 0)         \* 5e-5  (C20, fastmath off)
 \* C02: 0.5 + 1e-6 * 2^n
 Tol02(n)  == Add(Half, MulInt(Tol1em6, Pow2(n)))
+
+-------------------------------------------------------------------------------------
+(* Transfer characteristics (C03, C10, C16).  dir = "lin": gamma-encoded -> linear light;
+   dir = "gam": linear light -> gamma-encoded.  Domain x in [0,1].
+
+   Where a standard circulates in two constant variants the curve is defined as the SET of variants
+   (a sequence of candidate values): an observation is accepted when it is within budget of any of
+   them.  The variants differ from one another by < 4*10^-6, two orders below the budgets, so this
+   only removes a false-alarm source (DESIGN.md C03).                                           *)
+P24    == Ratio(24, 10)
+P24i   == Recip(Ratio(24, 10))
+P22    == Ratio(22, 10)
+P22i   == Recip(Ratio(22, 10))
+P28    == Ratio(28, 10)
+P28i   == Recip(Ratio(28, 10))
+P045   == Ratio(45, 100)
+P045i  == Recip(Ratio(45, 100))
+
+\* BT.709 OETF and inverse, parameterised by (alpha, beta): V = alpha L^0.45 - (alpha-1) for L >= beta, 4.5 L below
+B709Std == <<D(1, 0990, 0, 0, 0), D(0, 0180, 0, 0, 0)>>                     \* 1.099, 0.018
+B709Ext == <<D(1, 0992, 9682, 6809, 4400), D(0, 0180, 5396, 8510, 8070)>>   \* 1.09929682680944, 0.018053968510807
+G709(v, L)    == IF Cmp(L, v[2]) < 0 THEN MulInt(DivInt(L, 2), 9)
+                 ELSE Sub(Mul(v[1], Pow(L, P045)), Sub(v[1], One))
+G709Inv(v, V) == IF Cmp(V, MulInt(DivInt(v[2], 2), 9)) < 0 THEN DivInt(MulInt(V, 2), 9)
+                 ELSE Pow(Mul(Add(V, Sub(v[1], One)), Recip(v[1])), P045i)
+
+\* sRGB (IEC 61966-2-1) and the continuity-adjusted constants
+K1292   == D(12, 9200, 0, 0, 0)
+SrgbStd == [a |-> D(1, 0550, 0, 0, 0), lin |-> D(0, 0031, 3080, 0, 0), gam |-> D(0, 0404, 5000, 0, 0)]
+SrgbAdj == LET a == D(1, 0550, 1071, 8000, 0)  b == D(0, 0030, 4128, 2560, 1280)
+           IN [a |-> a, lin |-> b, gam |-> Mul(b, K1292)]
+SrgbToLin(v, x) == IF Cmp(x, v.gam) < 0 THEN Mul(x, Recip(K1292))
+                   ELSE Pow(Mul(Add(x, Sub(v.a, One)), Recip(v.a)), P24)
+SrgbToGam(v, x) == IF Cmp(x, v.lin) < 0 THEN Mul(x, K1292)
+                   ELSE Sub(Mul(v.a, Pow(x, P24i)), Sub(v.a, One))
+
+\* SMPTE ST 2084 (PQ) constants, exact dyadic rationals
+PQm1 == DivInt(FromInt(2610), 16384)            \* 0.1593017578125
+PQm2 == DivInt(FromInt(2523 * 32), 1024)        \* 78.84375
+PQc1 == DivInt(FromInt(3424), 4096)             \* 0.8359375
+PQc2 == DivInt(FromInt(2413), 128)              \* 18.8515625
+PQc3 == DivInt(FromInt(2392), 128)              \* 18.6875
+PQm1i == Recip(PQm1)
+PQm2i == Recip(PQm2)
+Ln100 == MulInt(Ln10, 2)
+\* BT.2100 reference PQ OOTF scale in two circulating values (BT.2100: 59.5208; BT.2390 continuity form: 59.4908)
+PQScales == <<D(59, 5208, 0, 0, 0), D(59, 4908, 0, 0, 0)>>
+\* inverse EOTF applied to Y given as ln(Y) (avoids representing tiny Y):  ((c1 + c2 Y^m1)/(1 + c3 Y^m1))^m2
+PQInvEotfLn(lnY) == LET ym == Exp(Mul(PQm1, lnY))
+                    IN Pow(Mul(Add(PQc1, Mul(PQc2, ym)), Recip(Add(One, Mul(PQc3, ym)))), PQm2)
+\* scene linear E in [0,1] -> PQ signal:  InvEOTF(G1886(G709(s E)) / 100)
+PQToGam(v709, s, E) ==
+  LET g == G709(v709, Mul(s, E))
+  IN IF g[1] <= 0 THEN Pow(PQc1, PQm2)           \* Y = 0:  c1^m2 = 7.3*10^-7 (display black of the PQ signal)
+     ELSE PQInvEotfLn(Sub(Mul(P24, Ln(g)), Ln100))
+\* PQ signal E' in [0,1] -> scene linear:  G709^-1((100 Y)^(1/2.4)) / s,  Y = EOTF(E')
+PQToLin(v709, s, Ep) ==
+  IF Ep[1] <= 0 THEN Z ELSE
+  LET xp  == Pow(Ep, PQm2i)
+      num == Sub(xp, PQc1)
+  IN IF num[1] <= 0 THEN Z
+     ELSE LET lnY == Mul(PQm1i, Ln(Mul(num, Recip(Sub(PQc2, Mul(PQc3, xp))))))
+              d   == Exp(Mul(P24i, Add(lnY, Ln100)))                 \* (100 Y)^(1/2.4)
+          IN Mul(G709Inv(v709, d), Recip(s))
+
+\* ARIB STD-B67 / BT.2100 HLG
+HLGa == D(0, 1788, 3277, 0, 0)
+HLGb == D(0, 2846, 6892, 0, 0)
+HLGc == D(0, 5599, 1073, 0, 0)
+HLGToGam(E)  == IF Cmp(E, Ratio(1, 12)) <= 0 THEN Sqrt(MulInt(E, 3))
+                ELSE Add(Mul(HLGa, Ln(Sub(MulInt(E, 12), HLGb))), HLGc)
+HLGToLin(Ep) == IF Cmp(Ep, Half) <= 0 THEN DivInt(Sq(Ep), 3)
+                ELSE DivInt(Add(Exp(Mul(Sub(Ep, HLGc), Recip(HLGa))), HLGb), 12)
+
+CurveClass(tc) == IF tc \in {1, 6, 7, 14, 15} THEN 1 ELSE tc
+G24Aliases == <<1, 6, 7, 14, 15>>
+LogCurves == {9, 10}
+Log316Cut == D(0, 0031, 6227, 7660, 1684)        \* 10^-2.5
+
+\* candidate reference values (a sequence) for curve tc, direction dir, input x in [0,1]
+CurveRef(tc, dir, x) ==
+  LET c == CurveClass(tc) IN
+  CASE c = 1  -> <<IF dir = "lin" THEN Pow(x, P24) ELSE Pow(x, P24i)>>
+    [] c = 11 -> <<IF dir = "lin" THEN Pow(x, P24) ELSE Pow(x, P24i)>>     \* xvYCC inside [0,1]
+    [] c = 4  -> <<IF dir = "lin" THEN Pow(x, P22) ELSE Pow(x, P22i)>>
+    [] c = 5  -> <<IF dir = "lin" THEN Pow(x, P28) ELSE Pow(x, P28i)>>
+    [] c = 8  -> <<x>>
+    [] c = 13 -> IF dir = "lin" THEN <<SrgbToLin(SrgbStd, x), SrgbToLin(SrgbAdj, x)>>
+                               ELSE <<SrgbToGam(SrgbStd, x), SrgbToGam(SrgbAdj, x)>>
+    [] c = 9  -> <<IF dir = "lin" THEN Exp(Mul(Ln10, MulInt(Sub(x, One), 2)))
+                   ELSE IF Cmp(x, Ratio(1, 100)) < 0 THEN Z ELSE Add(One, DivInt(Log10(x), 2))>>
+    [] c = 10 -> <<IF dir = "lin" THEN Exp(Mul(Ln10, DivInt(MulInt(Sub(x, One), 5), 2)))
+                   ELSE IF Cmp(x, Log316Cut) < 0 THEN Z ELSE Add(One, DivInt(MulInt(Log10(x), 2), 5))>>
+    [] c = 16 -> IF dir = "lin"
+                 THEN <<PQToLin(B709Std, PQScales[1], x), PQToLin(B709Ext, PQScales[2], x),
+                        PQToLin(B709Ext, PQScales[1], x), PQToLin(B709Std, PQScales[2], x)>>
+                 ELSE <<PQToGam(B709Std, PQScales[1], x), PQToGam(B709Ext, PQScales[2], x),
+                        PQToGam(B709Ext, PQScales[1], x), PQToGam(B709Std, PQScales[2], x)>>
+    [] c = 18 -> <<IF dir = "lin" THEN HLGToLin(x) ELSE HLGToGam(x)>>
+
+\* C03 / C10 budgets
+CurveTol(tc, dir) == IF tc = 16 /\ dir = "gam" THEN TolPQ ELSE TolCurve
+RtTol(tc)         == IF tc = 16 THEN TolPQ ELSE TolCurve
+\* strict "<" of the statements is checked as "<= tol + SpecEps": the harmless direction
+NearAny(y, refs, tol) == \E k \in 1..Len(refs) : Near(y, refs[k], tol)
 =====================================================================================
